@@ -109,6 +109,10 @@ pub struct SchedSpec {
     /// scheduling points at lock acquisitions (off: only I/O, send and job boundaries)
     pub lock_points: bool,
     pub read_points: bool,
+    /// evaluate the C12 clauses over the I/O log (value: the dirty-byte limit in force)
+    pub sync_check: bool,
+    /// C13: at final quiescence the worker is alive and the active blob is below its limit
+    pub liveness_check: bool,
 }
 
 impl SchedSpec {
@@ -130,6 +134,8 @@ impl SchedSpec {
             keys: vec![0, 1],
             lock_points: true,
             read_points: true,
+            sync_check: false,
+            liveness_check: false,
         }
     }
 }
@@ -150,6 +156,8 @@ pub struct SchedOut {
     pub findings: Vec<Finding>,
     pub polls_of_victim: usize,
     pub victim_completed: bool,
+    pub in_active: Option<usize>,
+    pub worker_alive: bool,
 }
 
 struct Limited<F> {
@@ -390,6 +398,12 @@ async fn main_task<K: HKey>(spec: SchedSpec) -> SchedOut {
     ctl::with_ctl(|c| c.set_exploring(false));
     ctl::quiesce().await;
     out.final_obs = final_obs(&*storage, &spec.keys).await;
+    out.in_active = storage.records_count_in_active_blob().await;
+    out.worker_alive = ctl::with_ctl(|c| c.task_alive("worker"));
+    if spec.sync_check {
+        let a = if storage.has_active_blob().await { storage.records_count_detailed().await.last().map(|x| x.0) } else { None };
+        ctl::with_ctl(|c| c.log.borrow_mut().mark(format!("quiescent active={}", a.map_or("none".to_string(), |x| x.to_string()))));
+    }
     let (polls, completed) = *victim_info.lock().unwrap();
     out.polls_of_victim = polls;
     out.victim_completed = completed;
@@ -685,6 +699,19 @@ pub fn judge(spec: &SchedSpec, trace: &RunTrace, panics: &[String], out: &SchedO
     if !fs.is_empty() {
         return fs;
     }
+    if spec.liveness_check {
+        if !out.worker_alive {
+            fs.push(finding("worker_dead", "the background worker is not running at the end of the run".to_string()));
+        }
+        if let Some(n) = out.in_active {
+            if n as u64 >= spec.wcfg.max_data_in_blob {
+                fs.push(finding(
+                    "no_switch",
+                    format!("at quiescence the active blob holds {} records, limit {}: no switch happened", n, spec.wcfg.max_data_in_blob),
+                ));
+            }
+        }
+    }
     let (start, _) = prefix_content(spec, 4);
     let disk_puts: BTreeSet<(KeyId, u64, String)> = out
         .disk_records
@@ -797,8 +824,16 @@ pub fn run_once(spec: &SchedSpec, prefix: &[usize]) -> (RunTrace, Vec<String>, S
     let s = spec.clone();
     let exec = ctl::execute(ctl_config(spec), prefix, None, move || main_task::<ArrayKey<4>>(s));
     let panics = exec.ctl.panics.borrow().clone();
+    let sync_findings = if spec.sync_check {
+        crate::engines::syncmon::check_log(&exec.ctl.log.borrow(), spec.wcfg.max_dirty)
+    } else {
+        vec![]
+    };
     let out = match exec.result {
-        Ok(o) => o,
+        Ok(mut o) => {
+            o.findings.extend(sync_findings);
+            o
+        }
         Err(e) => SchedOut {
             findings: if matches!(exec.trace.end, EndState::Finished) {
                 vec![finding("panic", format!("main task: {e}"))]
